@@ -690,3 +690,29 @@ package gts
 //@   loop 1: invariant len(ff) == len(featsOf(seq)) && fresh(ff)
 //@   loop 1: invariant forall k in 0..i: ff[k].Key == old(featsOf(seq)[k].Key) && sameslice(ff[k].Props, old(featsOf(seq)[k].Props))
 //@   loop 1: decreases len(ff) - i
+
+// ---------------------------------------------------------------------------
+// feature.go: selection (C19)
+
+//@ func (ff FeatureSlice) Filter(filter Filter) (gg FeatureSlice)
+//@   prop C19 C11 C03
+//@   ghost J(k int) int
+//@   ghost I(j int) int
+//@   ghost_final J(k) := indices[k]
+//@   ensures fresh(gg) && len(gg) <= len(ff)
+//@   ensures accepted: forall k in 0..len(gg): 0 <= J(k) && J(k) < len(ff) && gg[k] == ff[J(k)] && filter(ff[J(k)])
+//@   ensures ordered: forall k in 0..len(gg)-1: J(k) < J(k+1)
+//@   ensures complete: forall j in 0..len(ff): filter(ff[j]) ==> 0 <= I(j) && I(j) < len(gg) && J(I(j)) == j
+//@   assigns nothing
+//@   loop 1: invariant fresh(indices) && len(indices) <= i
+//@   loop 1: invariant forall k in 0..len(indices): 0 <= indices[k] && indices[k] < i && filter(ff[indices[k]])
+//@   loop 1: invariant forall k in 0..len(indices)-1: indices[k] < indices[k+1]
+//@   loop 1: invariant forall j in 0..i: filter(ff[j]) ==> 0 <= I(j) && I(j) < len(indices) && indices[I(j)] == j
+//@   loop 1: ghost_update I(j) := ite(j == i - 1 && len(indices) > iter_old(len(indices)), len(indices) - 1, I(j))
+//@   loop 1: decreases len(ff) - i
+//@   loop 2: invariant fresh(gg) && len(gg) == len(indices) && fresh(indices)
+//@   loop 2: invariant forall k in 0..len(indices): 0 <= indices[k] && indices[k] < len(ff) && filter(ff[indices[k]])
+//@   loop 2: invariant forall k in 0..len(indices)-1: indices[k] < indices[k+1]
+//@   loop 2: invariant forall j in 0..len(ff): filter(ff[j]) ==> 0 <= I(j) && I(j) < len(indices) && indices[I(j)] == j
+//@   loop 2: invariant forall k in 0..i: gg[k] == ff[indices[k]]
+//@   loop 2: decreases len(indices) - i
